@@ -39,6 +39,7 @@ package api
 
 // data update of a remote feature's replicated function data (details: C02)
 //@ iface api.FeatureRemoteInterface.UpdateData
+//@   ensures result1 != nil ==> result1.ErrorNumber != model.ErrorNumberTypeNoError
 //@   modifies world
 
 // ---------------------------------------------------------------------------------------
@@ -108,4 +109,14 @@ package api
 //@ iface api.OperationsInterface.Write pure const
 //@ iface api.OperationsInterface.Read pure const
 //@ iface api.FeatureLocalInterface.RequestRemoteData
+//@   modifies outmisc, held
+
+//@ iface api.FunctionDataCmdInterface.ReplyCmdType
+//@   modifies nothing
+//@ iface api.FunctionDataCmdInterface.NotifyOrWriteCmdType
+//@   modifies nothing
+//@ iface api.FunctionDataInterface.UpdateDataAny
+//@   ensures result1 != nil ==> result1.ErrorNumber != model.ErrorNumberTypeNoError
+//@   modifies world
+//@ iface api.DeviceLocalInterface.NotifySubscribers
 //@   modifies outmisc, held
